@@ -142,15 +142,20 @@ pub fn run(t: &mut Toks) -> Result<String, String> {
                 "setflag" | "unsetflag" | "clearflags" => {
                     ok = true;
                     if let Some(c) = cfg.as_mut() {
+                        // through the public setters of `Reclass` (an instance over an empty scratch
+                        // inventory that is handed this configuration)
+                        let rdir = std::path::PathBuf::from(&scratch).join("flag-inv");
+                        std::fs::create_dir_all(rdir.join("nodes")).map_err(|e| e.to_string())?;
+                        std::fs::create_dir_all(rdir.join("classes")).map_err(|e| e.to_string())?;
+                        let mut r = reclass_rs::Reclass::new(rdir.to_str().unwrap(), "nodes", "classes", false)
+                            .map_err(|e| e.to_string())?;
+                        r.config = c.clone();
                         match op.as_str() {
-                            "setflag" => {
-                                c.compatflags.insert(hooks::CompatFlag::ComposeNodeNameLiteralDots);
-                            }
-                            "unsetflag" => {
-                                c.compatflags.remove(&hooks::CompatFlag::ComposeNodeNameLiteralDots);
-                            }
-                            _ => c.compatflags.clear(),
+                            "setflag" => r.set_compat_flag(hooks::CompatFlag::ComposeNodeNameLiteralDots),
+                            "unsetflag" => r.unset_compat_flag(&hooks::CompatFlag::ComposeNodeNameLiteralDots),
+                            _ => r.clear_compat_flags(),
                         }
+                        *c = r.config.clone();
                     }
                 }
                 _ => return Err(format!("bad op {op}")),
